@@ -38,7 +38,8 @@ ASSUMPTIONS = ["round trip of item lists that never meet a transport (pure funct
                "reply types 0x0C/0x0D (FragmentData/FragmentLast) are excluded from BLE replies: _pairing_char_write gives them protocol meaning"]
 TIERS = {"quick": {"runs": 60000, "wall": 55}, "thorough": {"runs": 3000000, "wall": 1500}}
 
-LENS = [0, 1, 2, 254, 255, 256, 257, 509, 510, 511, 765, 766]
+LENS = [0, 1, 2, 254, 255, 256, 257, 509, 510, 511, 765, 766,
+        253, 506, 759]  # the last three make a single-item list exactly 255 / 510 / 765 bytes long on the wire (the BleRequest value field)
 HARMLESS = ("frag_empty_last", "frag_empty_middle")  # legal peer behaviour, not damage: the reply must still be accepted
 PAIRING_TYPES = [0, 1, 2, 3, 4, 5, 6, 7, 8, 9, 10, 11, 14, 19]
 
@@ -264,6 +265,9 @@ def execute_ble(plan, ch):
         seams.end()
     ctx.event("ble", type(out["exc"]).__name__ if out["exc"] else "ok", seen["n"], len(rb))
     judge_request(ctx, plan, req, seen["raw"])
+    if acc.protocol_errors:
+        # the BleRequest struct that carries the list (09 01 01 | 01 <list>) as the strict reference decoder saw it
+        ctx.violate("request-not-canonical", "ble-request-struct", f"request list of {len(seen['raw'] or b'')} bytes: reference accessory: {acc.protocol_errors[:2]}")
     pieces = getattr(acc, "tlv_pieces_sent", None)
     fragmented = bool(pieces and len(pieces) > 1)
     delivered = b"".join(pieces) if fragmented else rb
